@@ -157,6 +157,16 @@ fn alterations(p: &Proto, k: usize, bit_granular: bool, par: &[Vec<u8>]) -> Vec<
     }
     v.push(a(Alter::Extend(1, 0)));
     v.push(a(Alter::Extend(16, 0xaa)));
+    // multi-byte edits: two and three bits in different fields / bytes at once
+    let fm = field_map(p, k, PLENS[k]);
+    let marks: Vec<usize> = fm.iter().flat_map(|f| [f.start, f.start + f.len.saturating_sub(1)]).filter(|x| *x < len).collect();
+    for (i, m1) in marks.iter().enumerate() {
+        for m2 in marks.iter().skip(i + 1) {
+            let two = Msg::Altered(Box::new(a(Alter::FlipBit(m1 * 8 + 1))), Alter::FlipBit(m2 * 8 + 6));
+            v.push(two.clone());
+            v.push(Msg::Altered(Box::new(two), Alter::FlipBit((m1 + m2) / 2 * 8 + 3)));
+        }
+    }
     // substitutions: every message of the parallel session, earlier messages of this session, constants
     for (j, m) in par.iter().enumerate() {
         // one-way patterns: the initiator is finished after its only write whatever the responder
